@@ -4,7 +4,7 @@ set -e
 cd "$(dirname "$0")"
 export CARGO_NET_OFFLINE=true
 (cd harness && cp /repo/Cargo.lock Cargo.lock 2>/dev/null || true)
-python3 tools/extract_tables.py || true
+for f in tools/extract_c*.py; do [ -f "$f" ] && python3 "$f"; done || true
 TARGETS=$(python3 -c "import sys; sys.path.insert(0,'tools'); from props import PROPS; print(' '.join(sorted(set(t for c in PROPS.values() for t in c['theorem_modules']+[c['driver']]))))")
 (cd lean && lake build $TARGETS)
 BINS=$(python3 -c "import sys; sys.path.insert(0,'tools'); from props import PROPS; print(' '.join('--bin '+c['bin'] for c in PROPS.values()))")
